@@ -17,16 +17,16 @@ import (
 )
 
 type pktF struct {
-	Version, Len                    uint64
-	Auth, AuthHdr                   bool
-	AuthType, Mult                  uint64
-	Multipoint                      bool
-	My, Your, State                 uint64
-	Poll, Final                     bool
-	Echo                            uint64
-	Demand                          bool
-	DesTx, ReqRx                    uint64
-	pkt                             *layers.BFD
+	Version, Len    uint64
+	Auth, AuthHdr   bool
+	AuthType, Mult  uint64
+	Multipoint      bool
+	My, Your, State uint64
+	Poll, Final     bool
+	Echo            uint64
+	Demand          bool
+	DesTx, ReqRx    uint64
+	pkt             *layers.BFD
 }
 
 func b2n(b bool) uint64 {
@@ -117,7 +117,8 @@ func (c *counter) Add(v float64) {
 	}
 }
 
-const detect = 100 * time.Millisecond // detection time of every accepted packet (mult 1)
+const detect = 1000 * time.Millisecond // RequiredMinRxInterval of the sessions under test (detection time = Mult * detect)
+const localDisc = 77
 
 type histOp struct {
 	P       *pktF // nil = wait for the detection timer
@@ -132,7 +133,7 @@ func runHistory(rd0 uint32, ops []histOp) []obs {
 	s := &bfd.Session{
 		Sender: nopSender{}, DetectMult: 1,
 		DesiredMinTxInterval: 50 * time.Millisecond, RequiredMinRxInterval: detect,
-		LocalDiscriminator: 77, RemoteDiscriminator: layers.BFDDiscriminator(rd0),
+		LocalDiscriminator: localDisc, RemoteDiscriminator: layers.BFDDiscriminator(rd0),
 		ReceiveQueueSize: 0,
 		Metrics:          bfd.Metrics{PacketsReceived: rx},
 	}
@@ -140,8 +141,7 @@ func runHistory(rd0 uint32, ops []histOp) []obs {
 	defer cancel()
 	done := make(chan struct{})
 	go func() { _ = s.Run(ctx); close(done) }()
-	// wait until Run initialised the session (state Down is set by Run)
-	time.Sleep(5 * time.Millisecond)
+	waitInit(s)
 	var out []obs
 	accepted := int64(0)
 	read := func() obs {
@@ -149,7 +149,13 @@ func runHistory(rd0 uint32, ops []histOp) []obs {
 	}
 	for _, o := range ops {
 		if o.P == nil {
-			time.Sleep(3 * detect)
+			// timeouts are only generated after an accepted packet (remote discriminator learned):
+			// the expiry resets it to 0, which is the signal that Run handled the timer
+			time.Sleep(detect)
+			for i := 0; i < 200000 && s.VerifRemoteDiscriminator() != 0; i++ {
+				time.Sleep(100 * time.Microsecond)
+			}
+			settle()
 			out = append(out, read())
 			continue
 		}
@@ -159,7 +165,7 @@ func runHistory(rd0 uint32, ops []histOp) []obs {
 			for rx.n.Load() < accepted {
 				time.Sleep(50 * time.Microsecond)
 			}
-			time.Sleep(2 * time.Millisecond) // let Run finish the transition
+			settle() // let Run finish the transition
 		}
 		out = append(out, read())
 	}
@@ -210,28 +216,33 @@ func main() {
 	// 3. session histories (run concurrently: they mostly sleep)
 	nh := run.Count(60, 1500)
 	type hist struct {
-		rd0  uint32
-		ops  []histOp
-		out  []obs
-		want bool
+		rd0       uint32
+		wrongYour bool
+		ops       []histOp
+		out       []obs
+		want      bool
 	}
 	hs := make([]*hist, nh)
 	for i := 0; i < nh; i++ {
 		r := rng.Fork(uint64(1000000 + i))
-		h := &hist{rd0: uint32(r.Intn(3))}
+		h := &hist{rd0: uint32(r.Intn(3)), wrongYour: i%6 == 5}
 		n := r.Range(6, 14)
-		armed := false
 		for j := 0; j < n; j++ {
-			if armed && r.Chance(1, 5) {
-				h.ops = append(h.ops, histOp{})
-				armed = false
-				continue
-			}
 			p := genPkt(r, true)
-			p.Mult, p.pkt.DetectMultiplier = 1, 1
+			// an accepted packet arms the detection timer with Mult * detect: 255 * detect (far beyond
+			// the duration of a history, also on a loaded machine) unless the next op is the expiry
+			p.Mult, p.pkt.DetectMultiplier = 255, 255
+			if p.Your != 0 && !h.wrongYour {
+				// the session's own discriminator; other non-zero values only in 1 history of 6
+				// (RFC 5880 6.8.6 session lookup, known finding your-discriminator-unchecked)
+				p.Your, p.pkt.YourDiscriminator = localDisc, localDisc
+			}
 			d := bfd.VerifShouldDiscard(p.pkt)
-			if !d {
-				armed = true
+			if !d && r.Chance(1, 4) {
+				p.Mult, p.pkt.DetectMultiplier = 1, 1
+				h.ops = append(h.ops, histOp{P: p}, histOp{})
+				j++
+				continue
 			}
 			h.ops = append(h.ops, histOp{P: p, Discard: d})
 		}
@@ -280,6 +291,10 @@ func main() {
 				if o.P.State == 0 && !o.Discard {
 					tags = append(tags, "recv-admindown")
 				}
+				if o.P.Your != 0 && o.P.Your != localDisc && !o.Discard {
+					tags = append(tags, "your-discriminator-unchecked")
+					run.Tally("op:accepted-with-foreign-your-discriminator")
+				}
 			}
 			if h.out[j].State != prev {
 				nontriv = true
@@ -291,11 +306,125 @@ func main() {
 			obsT[j] = vgen.Pair(vgen.N(o.State), vgen.N(o.RDisc))
 		}
 		run.Add("history",
-			vgen.App("BFD.CHist", vgen.N(uint64(h.rd0)), vgen.List(opsT), vgen.List(obsT)),
+			vgen.App("BFD.CHist", vgen.N(localDisc), vgen.N(uint64(h.rd0)), vgen.List(opsT), vgen.List(obsT)),
 			fmt.Sprint(h.rd0, opsT), nontriv,
 			map[string]any{"rdisc0": h.rd0, "ops": desc, "impl": h.out}, tags...)
+	}
+	// 4. detection time: one accepted packet that leaves the session in Init/Up, then silence; the
+	// moment the session falls back to Down is bracketed by polling (wall clock, microseconds)
+	ndt := run.Count(24, 240)
+	type dcase struct {
+		r      time.Duration
+		p      *pktF
+		hi, lo uint64
+		want   bool
+	}
+	ds := make([]*dcase, ndt)
+	baseD := base + nh
+	for i := range ds {
+		r := rng.Fork(uint64(2000000 + i))
+		d := &dcase{r: time.Duration([]int{20, 40, 80}[r.Intn(3)]) * time.Millisecond}
+		p := genPkt(r, true)
+		for bfd.VerifShouldDiscard(p.pkt) || p.State == 0 || p.State == 3 {
+			p = genPkt(r, true) // Down (-> Init) or Init with a discriminator (-> Up)
+		}
+		if p.State == 2 && p.Your == 0 {
+			p.Your, p.pkt.YourDiscriminator = localDisc, localDisc
+		}
+		p.Mult = uint64(r.Range(1, 3))
+		p.DesTx = uint64([]int{10000, 30000, 60000, 120000}[r.Intn(4)])
+		p.pkt.DetectMultiplier = layers.BFDDetectMultiplier(p.Mult)
+		p.pkt.DesiredMinTxInterval = layers.BFDTimeInterval(p.DesTx)
+		d.p = p
+		d.want = wantID(run, baseD+i)
+		ds[i] = d
+	}
+	for _, d := range ds {
+		if !d.want {
+			continue
+		}
+		wg.Add(1)
+		sem <- struct{}{}
+		go func(d *dcase) {
+			defer wg.Done()
+			defer func() { <-sem }()
+			d.hi, d.lo = runDetect(d.r, d.p)
+		}(d)
+	}
+	wg.Wait()
+	for _, d := range ds {
+		if !d.want {
+			run.Skip()
+			continue
+		}
+		run.Tally(fmt.Sprintf("detect:reqrx=%dms,destx=%dms,mult=%d", d.r/time.Millisecond, d.p.DesTx/1000, d.p.Mult))
+		run.Add("detect",
+			vgen.App("BFD.CDetect", vgen.N(uint64(d.r/time.Microsecond)), vgen.NList(d.p.fields()),
+				vgen.N(d.hi), vgen.N(d.lo)),
+			fmt.Sprint(d.r, d.p.fields()), true,
+			map[string]any{"required_min_rx_us": d.r / time.Microsecond, "fields": d.p.fields(),
+				"down_first_seen_after_us": d.hi, "last_seen_not_down_after_us": d.lo})
 	}
 	run.Finish()
 }
 
+// runDetect hands one packet to a fresh real session and brackets the moment it falls back to Down.
+func runDetect(reqRx time.Duration, p *pktF) (hi, lo uint64) {
+	rx := &counter{Counter: prometheus.NewCounter(prometheus.CounterOpts{Name: "x"})}
+	s := &bfd.Session{
+		Sender: nopSender{}, DetectMult: 1,
+		DesiredMinTxInterval: 50 * time.Millisecond, RequiredMinRxInterval: reqRx,
+		LocalDiscriminator: localDisc, ReceiveQueueSize: 0,
+		Metrics: bfd.Metrics{PacketsReceived: rx},
+	}
+	ctx, cancel := context.WithCancel(context.Background())
+	defer cancel()
+	done := make(chan struct{})
+	go func() { _ = s.Run(ctx); close(done) }()
+	waitInit(s)
+	t0b := time.Now() // before the hand-over: the detection timer is armed after this instant
+	s.ReceiveMessage(p.pkt)
+	for rx.n.Load() < 1 {
+		time.Sleep(20 * time.Microsecond)
+	}
+	t0a := time.Now() // after the acceptance was counted: the timer was armed before this instant
+	time.Sleep(500 * time.Microsecond)
+	deadline := t0a.Add(8 * time.Second)
+	lo = 1 << 40 // "never seen not-Down": fails the lower bracket
+	sawUp := false
+	for time.Now().Before(deadline) {
+		before := time.Now()
+		st := s.VerifLocalState()
+		if st != 1 {
+			sawUp = true
+			lo = uint64(before.Sub(t0a) / time.Microsecond)
+		} else if sawUp {
+			hi = uint64(time.Since(t0b) / time.Microsecond)
+			break
+		}
+		time.Sleep(100 * time.Microsecond)
+	}
+	_ = s.Close()
+	<-done
+	return hi, lo
+}
+
 func wantID(run *vgen.Run, id int) bool { return run.WantID(id) }
+
+// waitInit waits until Run initialised the session (state Down is set by Run; the zero value is
+// AdminDown). On a loaded machine the goroutine may take a while to be scheduled.
+func waitInit(s *bfd.Session) {
+	for i := 0; i < 40000 && s.VerifLocalState() != 1; i++ {
+		time.Sleep(50 * time.Microsecond)
+	}
+	time.Sleep(2 * time.Millisecond)
+}
+
+// settle sleeps 2 ms, and longer when the machine is so loaded that sleeps overshoot.
+func settle() {
+	t := time.Now()
+	time.Sleep(3 * time.Millisecond)
+	if over := time.Since(t) - 3*time.Millisecond; over > time.Millisecond {
+		time.Sleep(min(40*over, 400*time.Millisecond))
+	}
+}
